@@ -36,6 +36,79 @@ def near_misses(names, rng):
     return sorted(x for x in out - set(names) if x and (x[0].isalpha() or x[0] == "_") and x.replace("_", "a").isalnum())
 
 
+def lessthan_abstract(ssa):
+    """the statements of a real SSA CFG as Model/LessThanPass.lean sees them, and the value id at each source range"""
+    import hashlib
+
+    def erase(v):
+        if isinstance(v, list):
+            if v and v[0] == "m":
+                return "m"
+            return [erase(x) for x in v]
+        return v
+
+    def h(x):
+        return "v" + hashlib.sha1(json.dumps(erase(x)).encode()).hexdigest()[:10]
+
+    def key(var, access):
+        accs = []
+        for a in access:
+            if a[0] == "cmp":
+                accs.append("P" + a[1])
+            else:
+                v = a[1][1][3] if isinstance(a[1], list) and len(a[1]) > 1 and isinstance(a[1][1], list) and a[1][1][:1] == ["m"] else "-"
+                accs.append("I" + ("-" if v == "-" else "%s%s" % (v[0], v[1])))
+        ident = "k" + hashlib.sha1(json.dumps([var[1], var[2], erase(access)]).encode()).hexdigest()[:10]
+        return "%s~%s.%s~%s" % (ident, var[1], var[2], ";".join(accs) or "-")
+    toks, at = [], {}
+    for b in ssa[5]:
+        for st in b[5]:
+            body = st[1]
+            if body[0] != "sub":
+                toks.append("O")
+                continue
+            m, var, op, rhe = body[1], body[2], body[3], body[4]
+            if op == "var":
+                if m[5] != "-" and m[5][0] in ("local", "signal"):
+                    toks.append("O")
+                    continue
+                access = []
+                if rhe[0] == "upd":
+                    access, rhe = rhe[3], rhe[4]
+                if rhe[0] != "call":
+                    toks.append("O")
+                    continue
+                name, args = rhe[2], rhe[3]
+                if name == "LessThan" and len(args) == 1:
+                    inst = "L"
+                elif name == "Num2Bits" and len(args) == 1:
+                    v = args[0][1][3]
+                    inst = "N.%s.%s" % (v[1] if v != "-" and v[0] == "f" else "-", h(args[0]))
+                else:
+                    inst = "U"
+                toks.append("I:%s:%s" % (key(var, access), inst))
+            elif op == "csig" and rhe[0] == "upd" and rhe[3]:
+                access, value = rhe[3], rhe[4]
+                last = access[-1]
+                if last[0] == "cmp":
+                    kacc, port, indexed = access[:-1], last[1], 0
+                elif len(access) >= 2 and access[-2][0] == "cmp":
+                    kacc, port, indexed = access[:-2], access[-2][1], 1
+                else:
+                    toks.append("O")
+                    continue
+                elems = "-"
+                at[(int(value[1][1]), int(value[1][2]))] = h(value)
+                if value[0] == "arr":
+                    elems = ",".join(h(e) for e in value[2]) or "-"
+                    for e in value[2]:
+                        at[(int(e[1][1]), int(e[1][2]))] = h(e)
+                toks.append("P:%s:%s:%d:%s:%s" % (key(var, kacc), port, indexed, h(value), elems))
+            else:
+                toks.append("O")
+    return toks, at
+
+
 def run(ctx):
     vlib.build_harness()
     try:
@@ -169,11 +242,13 @@ def run(ctx):
                         else "rc = Num2Bits(%s); rc = Num2Bits(%s);" % (k1, k2))
                 src = ("template T(n) { signal input a; signal input b; signal output o; component lt = LessThan(8); component rc; component rb = Num2Bits(%d); %s "
                        "rc.in <== a; rb.in <== b; lt.in[0] <== a; lt.in[1] <== b; o <== lt.out; }" % (small, inst))
-                reqs.append(json.dumps({"src": src, "curve": c}))
+                reqs.append(json.dumps({"src": src, "curve": c, "dump": True}))
                 meta.append((c, k1, k2, shape))
+    twice = []      # (curve, name, reply, source) for the L2 comparison with the pass model below
     for (c, k1, k2, shape), i, rq in zip(meta, vlib.run_harness("defpasses", reqs), reqs):
         evals += 1
         ir = json.loads(i) if i.startswith("{") else {"error": i}
+        twice.append((c, "twice-%s-%s-%s" % (shape, k1, k2), ir, json.loads(rq)["src"]))
         flagged = sum(1 for r in ir.get("reports", []) if r["id"] == "CS0014")
         ok_all = all(2 ** k - 1 <= primes[c] // 2 for k in (k1, k2))
         # "counts as range-checked only if": when some instantiation does not qualify the input must be flagged; when all qualify the tool
@@ -209,14 +284,37 @@ def run(ctx):
         for nm, src, lo, hi in shapes:
             reqs.append(json.dumps({"src": src, "curve": c}))
             meta.append((c, nm, lo, hi))
-    for (c, nm, lo, hi), i, rq in zip(meta, vlib.run_harness("defpasses", reqs), reqs):
+    reqs = [json.dumps(dict(json.loads(r), dump=True)) for r in reqs]
+    tag = {"BN254": "Bn254", "BLS12_381": "Bls12_381", "GOLDILOCKS": "Goldilocks"}
+    shape_replies = vlib.run_harness("defpasses", reqs)
+    mlines, mmeta = [], []
+    for (c, nm, lo, hi), i, rq in zip(meta, shape_replies, reqs):
         evals += 1
         ir = json.loads(i) if i.startswith("{") else {"error": i}
         flagged = sum(1 for r in ir.get("reports", []) if r["id"] == "CS0014")
         if "error" in ir or not (lo <= flagged <= hi):
             l1 += 1
-            ctx.violation("c11-lessthan-shape %s %s" % (nm, c), {"stage": "L1 an input counts as range-checked only if the Num2Bits it really feeds qualifies", "input": rq,
+            ctx.violation("c11-lessthan-shape %s %s" % (nm, c), {"stage": "L1 an input counts as range-checked only if the Num2Bits it really feeds qualifies", "input": rq[:1500],
                                                                  "implementation_flags": flagged, "specified": [lo, hi], "error": ir.get("error"), "broken": None})
+        elif "ssa" in ir:
+            # L2: the pass model (Model/LessThanPass.lean) on the statements of the real CFG reports the same values
+            toks, at = lessthan_abstract(ir["ssa"])
+            real = sorted({at.get((r["primary"][0]["start"], r["primary"][0]["end"]), "?") for r in ir["reports"] if r["id"] == "CS0014" and r["primary"]})
+            mlines.append("lessthan %s %s" % (tag[c], " ".join(toks)))
+            mmeta.append((c, nm, real, json.loads(rq)["src"]))
+    for c, nm, ir, src in twice:
+        if "ssa" in ir:
+            toks, at = lessthan_abstract(ir["ssa"])
+            real = sorted({at.get((r["primary"][0]["start"], r["primary"][0]["end"]), "?") for r in ir["reports"] if r["id"] == "CS0014" and r["primary"]})
+            mlines.append("lessthan %s %s" % (tag[c], " ".join(toks)))
+            mmeta.append((c, nm, real, src))
+    for (c, nm, real, src), ml in zip(mmeta, vlib.run_model(mlines) if mlines else []):
+        evals += 1
+        got = sorted(x for x in ml.strip().split(",") if x and x != "-")
+        if got != real:
+            l2 += 1
+            ctx.violation("c11-lessthan-pass-correspondence %s" % nm, {"stage": "L2", "curve": c, "source": src, "model_reports": got, "implementation_reports": real,
+                                                                       "broken": "correspondence LessThanPass.reported <-> find_unconstrained_less_than"}, no_input=True)
     # ---- the instantiation in `component main = T(...)` (audit C11 f2): it is an instantiation like any other
     with vlib.Workdir("c11m") as wdm:
         mains = [("BLS12_381", "Sign", "()", "pragma circom 2.0.0;\ntemplate Sign() { signal input in[254]; signal output sign; sign <== in[0]; }\n", "CS0016"),
